@@ -2,11 +2,10 @@ CONSTANTS
   Dev = {}
   RD = 2
   MaxRetries = 1
-  MaxDgrams = 3
-  MaxOps = 12
-  PathMode = FALSE
+  MaxDgrams = 2
+  MaxOps = 7
+  PathMode = TRUE
   Faults <- GFaults
 SPECIFICATION GenSpec
-VIEW GenView
-ACTION_CONSTRAINT EmitTransition
+ACTION_CONSTRAINT EmitPaths
 CHECK_DEADLOCK FALSE
